@@ -332,10 +332,10 @@ def normalizeargs(rep, dmod, rule):
             continue
         if ret != O:
             probs.append('returns `%s`' % ret)
-        a = ps.fact('InterfaceClass in %s' % MRO)
-        b = ps.fact('Implements in %s' % MRO)
-        single = (a is True) or (b is True)
-        if not single and not (a is False and b is False):
+        from .sem import decided
+        A_, B_ = 'InterfaceClass in %s' % MRO, 'Implements in %s' % MRO
+        single = decided(ps, [A_, B_], lambda m: m[A_] or m[B_])
+        if single is None:
             probs.append('kind of argument not decided by InterfaceClass/Implements '
                          'in the class MRO')
             continue
